@@ -1,7 +1,7 @@
 (* C09: the statements of Properties/C09.v, assembled from C09Name / C09Msg / C09Rfc / C09Comp. *)
 From Coq Require Import List NArith ZArith Lia Bool.
 From Coq Require Import ZifyN ZifyNat ZifyBool.
-From Mant Require Import Prim.R Prim.Bytes Model.Llmnr Spec.C09
+From Mant Require Import Prim.R Prim.Bytes Gen.ConstsC09 Model.Llmnr Spec.C09
      Proofs.C09Base Proofs.C09Name Proofs.C09Msg Proofs.C09Rfc Proofs.C09Comp.
 Import ListNotations.
 Open Scope N_scope.
@@ -87,4 +87,45 @@ Lemma p_decoders_agree : forall d m, wire_msg d m -> msg_ok name_ok m ->
 Proof.
   intros d m Hw Hok. split; [|now apply rfc_decode_msg_wire].
   apply decode_message_wire; [exact Hw|]. eapply msg_ok_weaken; [apply name_ok_labels|exact Hok].
+Qed.
+
+(* valid names pass ValidateDomainName (so AddQuestion / AddAnswer / Validate accept them) *)
+Lemma lenN_join_dot n : n <> [] -> lenN (join_dot n) + 2 = name_wire_len n.
+Proof.
+  induction n as [|l r IH]; intros Hne; [congruence|].
+  destruct r as [|l2 r].
+  - cbn [join_dot]. unfold name_wire_len. cbn [fold_right]. lia.
+  - rewrite join_dot_cons by discriminate. rewrite lenN_app, lenN_cons.
+    specialize (IH ltac:(discriminate)). unfold name_wire_len in *. cbn [fold_right] in *. lia.
+Qed.
+
+Lemma p_valid_names_validate : forall s, text_name_ok s -> validate_name s = 0.
+Proof.
+  intros s [Hl Hw]. unfold validate_name, MaxDomainLength, c09_max_domain_length.
+  pose proof (lenN_join_dot (split_dot s) (split_dot_nonempty s)) as Hj. rewrite join_split in Hj.
+  destruct (N.ltb_spec 255 (lenN s)); [lia|].
+  replace (forallb (fun l => lenN l <=? MaxLabelLength) (split_dot s)) with true; [reflexivity|].
+  symmetry. apply forallb_forall. intros l Hin. unfold text_labels_ok in Hl. rewrite Forall_forall in Hl.
+  specialize (Hl l Hin). unfold MaxLabelLength, c09_max_label_length. lia.
+Qed.
+
+Lemma p_add_question_valid : forall m q, text_name_ok (q_name q) ->
+  add_question m q = (0, set_questions m (m_questions m ++ [q]) (wrap16 (lenN (m_questions m ++ [q])))).
+Proof. intros m q H. unfold add_question. now rewrite (p_valid_names_validate _ H). Qed.
+
+(* the encoder refuses every name with a label longer than 63 bytes (the two top bits of the
+   length octet are reserved for pointers) *)
+Lemma encode_labels_long n l : In l n -> 63 < lenN l -> encode_labels n = Err.
+Proof.
+  induction n as [|x n IH]; intros Hin Hl; [contradiction|].
+  cbn [encode_labels]. unfold MaxLabelLength, c09_max_label_length.
+  destruct (N.ltb_spec 63 (lenN x)) as [|Hx]; [reflexivity|].
+  destruct Hin as [->|Hin]; [lia|]. rewrite (IH Hin Hl). reflexivity.
+Qed.
+
+Lemma p_long_label_rejected : forall s l, In l (split_dot s) -> 63 < lenN l -> encode_name s = Err.
+Proof.
+  intros s l Hin Hl. unfold encode_name. destruct s as [|c s].
+  - cbn in Hin. destruct Hin as [<-|[]]. unfold lenN in Hl. simpl in Hl. lia.
+  - rewrite (encode_labels_long _ _ Hin Hl). reflexivity.
 Qed.
